@@ -1061,6 +1061,24 @@ impl<'a, 'b> GeneratorState<'a> {
         Ok(())
     }
 
+    /// A selector held in the accumulator is compared with 0 by testing the flags its computation
+    /// left. That only holds for the first comparison of the switch: after a CMP with another
+    /// case value the flags describe that comparison
+    fn switch_compare_with_zero(
+        &mut self,
+        e: &ExprType,
+        value: i32,
+        compares_done: u32,
+        pos: usize,
+    ) -> Result<(), Error> {
+        if value == 0 && compares_done > 0 {
+            if let ExprType::A(_) = e {
+                self.asm(CMP, &ExprType::Immediate(0), pos, false)?;
+            }
+        }
+        Ok(())
+    }
+
     pub(crate) fn generate_switch(
         &mut self,
         expr: &'a Expr,
@@ -1082,6 +1100,7 @@ impl<'a, 'b> GeneratorState<'a> {
         let mut switchnextstatement_label =
             format!(".switchnextstatement{}", self.local_label_counter_if);
         debug!("Cases : {:?}", cases);
+        let mut compares_done = 0;
         for (case, is_last_element) in cases
             .iter()
             .enumerate()
@@ -1093,6 +1112,8 @@ impl<'a, 'b> GeneratorState<'a> {
             match case.0.len() {
                 0 => (),
                 1 => {
+                    self.switch_compare_with_zero(&e, case.0[0], compares_done, pos)?;
+                    compares_done += 1;
                     self.generate_condition_ex(
                         &e,
                         &Operation::Eq,
@@ -1105,6 +1126,8 @@ impl<'a, 'b> GeneratorState<'a> {
                 }
                 _ => {
                     for i in &case.0 {
+                        self.switch_compare_with_zero(&e, *i, compares_done, pos)?;
+                        compares_done += 1;
                         self.generate_condition_ex(
                             &e,
                             &Operation::Eq,
